@@ -35,6 +35,10 @@ func sliceArrayOperator(d *dataTreeNavigator, context Context, expressionNode *E
 		relativeFirstNumber := firstNumber
 		if relativeFirstNumber < 0 {
 			relativeFirstNumber = len(lhsNode.Content) + firstNumber
+			if relativeFirstNumber < 0 {
+				// further left than the array is long: start at the beginning (as jq does)
+				relativeFirstNumber = 0
+			}
 		}
 
 		secondNumber, err := getSliceNumber(d, context, lhsNode, expressionNode.RHS)
